@@ -352,6 +352,17 @@ def c08(D, h, pairs=None):
         anc = gen.lcp([x, y])
         on_lineage = anc == x or anc == y
         res = []
+        if not on_lineage:
+            # refused with TypeError -- asked BEFORE any lateral comparison gives the common ancestor a genome (r13-C08b: an error
+            # message that reads the name of that genome)
+            for g1, g2 in ((gx, gy), (gy, gx)):
+                try:
+                    h.compare_genomes_vertically(g1, g2)
+                    bad.append('vertical comparison accepted genomes not on one lineage: %s,%s' % (taxS(x), taxS(y)))
+                except TypeError:
+                    pass
+                except Exception as e:      # noqa
+                    bad.append('vertical comparison of %s,%s (not on one lineage) raised %s, not TypeError' % (taxS(x), taxS(y), type(e).__name__))
         for g1, g2 in ((gx, gy), (gy, gx)):
             lm = h.compare_genomes_lateral(g1, g2)
             if pathof(lm.ancestor.taxon) != anc:
